@@ -116,7 +116,7 @@ func c17Run(b *core.B) {
 		d := c17Data{iv: r.Intn(50), sv: pick(r, []string{"x", "y<z", "q\"uote", ""})}
 		ct := pick(r, []string{"", "", "text/html", "application/javascript"})
 		pre, post := pick(r, []string{"", "pre ", "<p>"}), pick(r, []string{"", " post", "</p>\n"})
-		kind := r.Intn(9)
+		kind := r.Intn(12)
 		var tmpl, want, kindName string
 		var wantTrace []string
 		wantErr := false
@@ -200,6 +200,26 @@ func c17Run(b *core.B) {
 				tmpl = pre + "<%= contentOf(\"undefined\", " + d.lit("") + ") %>" + post
 				wantErr = true
 			}
+		case 9: // contentFor declared at top level, replayed inside a for body that goes on using its loop variable
+			kindName = "contentOf-inside-for"
+			tmpl = pre + "<% contentFor(\"blk\") { %>" + body + "<% } %><%= for (lv) in [\"e1\", \"e2\"] { %>[<%= contentOf(\"blk\", " + d.lit("") + ") %>|<%= lv %>]<% } %>" + post
+			one := inl(&d, false)
+			two := inl(&d, false)
+			want = pre + "[" + one + "|e1][" + two + "|e2]" + post
+		case 10: // contentFor declared at top level, replayed inside a function body
+			kindName = "contentOf-inside-fn"
+			tmpl = pre + "<% contentFor(\"blk\") { %>" + body + "<% } %><% let show = fn(pv) { %>(<%= contentOf(\"blk\", " + d.lit("") + ") %>|<%= pv %>)<% } %><%= show(\"p1\") %>" + post
+			want = pre + "(" + inl(&d, false) + "|p1)" + post
+		case 11: // the same data map passed to a partial twice; the partial rebinds one of its keys
+			kindName = "partial-twice-same-data-map"
+			partials["rebind"] = "<% let iv = iv + 1 %>" + body + "{<%= iv %>}"
+			tmpl = pre + "<% let dm = " + d.lit("") + " %><%= partial(\"rebind\", dm) %>;<%= partial(\"rebind\", dm) %>;<%= dm[\"iv\"] %>" + post
+			saveBody := body
+			body = partials["rebind"]
+			one := inl(&d, false)
+			two := inl(&d, false)
+			body = saveBody
+			want = pre + one + ";" + two + ";" + fmt.Sprint(d.iv) + post
 		case 7: // block helper: Block()
 			kindName = "block-helper"
 			tmpl = pre + "<%= cap() { %>" + body + "<% } %>" + post
